@@ -707,6 +707,26 @@ class PackageGenerator:
             m3.body.append("class ItemHolder(Item):\n    held: Item\n\n    def swap(self, it: Item) -> list[Item]:\n        ...\n")
             m3.all_classes.append("ItemHolder")
             self.probes["homonyms"].append({"name": "Item", "modules": [m1.qname, m2.qname], "user": m3.qname})
+            # the other homonym is used as a type by a second module; one of the two may be re-exported by a wildcard import
+            other_src = m2 if src is m1 else m1
+            m4 = self.new_module(top, "homo_user_two")
+            m4.add_import(f"from {other_src.qname} import Item")
+            m4.body.append("def use_other_item(it: Item) -> Item | None:\n    ...\n")
+            if r.random() < 0.5:
+                star = r.choice([m1, m2])
+                self.inits[star.pkg_path].append(f"from {star.qname} import *")
+            # a class whose name ends with the homonyms' name, and a function whose parameter type is only known from its
+            # docstring, by its bare name: the tool has to search the classes of the package for it
+            m1.body.append(self.gen_class(m1, "BulkItem", None, n_methods=1))
+            m1.all_classes.append("BulkItem")
+            m1.public_classes.append("BulkItem")
+            m5 = self.new_module(top, "homo_doc_user")
+            doc = {
+                "NUMPYDOC": "Invoice.\n\n    Parameters\n    ----------\n    item : Item\n        what to invoice\n    bulk : BulkItem\n        more of it\n\n    Returns\n    -------\n    result : Item\n        the same item\n",
+                "GOOGLE": "Invoice.\n\n    Args:\n        item (Item): what to invoice\n        bulk (BulkItem): more of it\n\n    Returns:\n        Item: the same item\n",
+                "REST": "Invoice.\n\n    :param item: what to invoice\n    :type item: Item\n    :param bulk: more of it\n    :type bulk: BulkItem\n    :returns: the same item\n    :rtype: Item\n",
+            }.get(self.doc_style, "Invoice an Item.\n")
+            m5.body.append(f'def invoice(item, bulk=None):\n    """{doc}    """\n    return item\n')
 
         if self.f("TIE_REEXPORT"):
             impl_pkg = r.choice([top, f"{top}.{subs[-1]}"])
@@ -963,7 +983,7 @@ def generate_package(seed: int, features: list[str] | None = None, doc_style: st
     return PackageGenerator(seed, features, doc_style).generate()
 
 
-def two_package_container(seed: int, container: str = "box", spread: bool | None = None) -> dict:
+def two_package_container(seed: int, container: str = "box", spread: bool | str | None = None) -> dict:
     """A source directory that is not a package itself but holds TWO top-level packages (get_api then keeps the directory
     as root and names the API after it)."""
     a = generate_package(seed)
@@ -976,6 +996,10 @@ def two_package_container(seed: int, container: str = "box", spread: bool | None
     if spread is None:
         spread = (seed // 7) % 2 == 1
     pa, pb = (f"{container}/proj_one", f"{container}/zz_proj_two") if spread else (container, container)
+    if spread == "uneven":
+        # the second package lies one level deeper, in a sibling directory that sorts first: only the nearest package
+        # (the first one) belongs to the input, whatever order the directories are listed in
+        pa, pb = f"{container}/proj_one", f"{container}/aa_extras/more"
     files = {f"{pa}/{p}": t for p, t in a["files"].items()}
     files.update({f"{pb}/{p}": t for p, t in b["files"].items()})
     meta = {"tokens": dict(a["meta"]["tokens"]), "probes": {}}
@@ -986,6 +1010,11 @@ def two_package_container(seed: int, container: str = "box", spread: bool | None
             meta["probes"][key] = dict(va or {}, **(vb or {}))
         else:
             meta["probes"][key] = list(va or []) + list(vb or [])
+    if spread == "uneven":
+        return {
+            "files": files, "src_rel": container, "top": a["top"], "features": sorted(set(a["features"]) | {"DEEPER_SIBLING_PACKAGE"}),
+            "doc_style": a["doc_style"], "seed": seed, "meta": a["meta"], "name": f"gen2u-{seed}", "container": container, "token_scope": a["top"],
+        }
     return {
         "files": files, "src_rel": container, "top": a["top"], "features": sorted(set(a["features"]) | set(b["features"]) | {"TWO_TOP_PACKAGES"}),
         "doc_style": a["doc_style"], "seed": seed, "meta": meta, "name": f"gen2-{seed}", "container": container, "token_scope": a["top"],
